@@ -17,9 +17,26 @@ RULE = ("every token kind in every argument position (all 216 kind triples of a 
         "built-ins that are pure on literals plus echo), each under two random layouts; non-trivial = distinct "
         "program text containing a call, a list or a dict")
 
-BLANKS = ["", "", " ", " ", "  ", "\n", "\t", " \n ", "\r\n", "\x0c", "\n\n  "]
+# every ASCII character str.strip() removes (Model/PyStr.v is_space): \t \n \x0b \x0c \r \x1c-\x1f and the space
+BLANKS = ["", "", " ", " ", "  ", "\n", "\t", " \n ", "\r\n", "\x0c", "\n\n  ", "\r", "\x0b", "\x1c", "\x1d", "\x1e",
+          "\x1f", " \t\r\n\x0c\x0b\x1c\x1f "]
 STR_ALPHA = list("abz09 ()[]{},:=\"'\\_-.") + ["é", "→", "\n", "\t"]
 NAMES = ["x", "y", "z", "events", "_a1", "Q", "n0"]
+# names the grammar admits ([A-Za-z_][A-Za-z0-9_]*) that look like something else: built-in names, prefixes and
+# extensions of the predefined names, underscores only, digits inside
+ODD_NAMES = ["echo", "nop", "limit_events", "true1", "True_", "RETURNS", "RETURN_", "RETUR", "NAME2", "_", "__", "_0",
+             "a_1_b", "e", "E9", "x1x", "xx", "X", "in", "None", "not", "l0l"]
+NAME_FIRST = "abcxyzABCXYZ_"
+NAME_REST = NAME_FIRST + "0123456789"
+
+
+def g_name(rng):
+    r = rng.random()
+    if r < 0.55:
+        return rng.choice(NAMES)
+    if r < 0.8:
+        return rng.choice(ODD_NAMES)
+    return rng.choice(NAME_FIRST) + "".join(rng.choice(NAME_REST) for _ in range(rng.choice([0, 1, 2, 3, 6])))
 PREDEF = ["true", "false", "True", "False", "NAME", "STARTTIME", "ENDTIME"]
 
 
@@ -151,7 +168,10 @@ def g_str(rng):
 
 
 def g_int(rng):
-    return ("int", rng.choice(["0", "1", "2", "7", "10", "007", "42", str(rng.randrange(10 ** 6)), str(rng.randrange(10 ** 17))]))
+    if rng.random() < 0.03:      # beyond the driver's 63-bit text glue: oracle only
+        return ("int", rng.choice([str(2 ** 61), str(2 ** 63), str(2 ** 64 + 1), str(rng.randrange(10 ** 40))]))
+    return ("int", rng.choice(["0", "1", "2", "7", "10", "007", "42", "000", "0" * 30 + "5", str(2 ** 61 - 1),
+                               str(rng.randrange(10 ** 6)), str(rng.randrange(10 ** 17)), str(rng.randrange(2 ** 61))]))
 
 
 def g_term(rng, depth, bound):
@@ -163,7 +183,7 @@ def g_term(rng, depth, bound):
         if r < 0.65:
             return g_str(rng)
         if r < 0.95:
-            return ("var", rng.choice(bound + PREDEF if rng.random() < 0.95 else ["undefined_v"]))
+            return ("var", rng.choice(bound + PREDEF if rng.random() < 0.97 else ["undefined_v"]))
         return ("call", "nop", [])
     if r < 0.4:
         return g_call(rng, depth, bound)
@@ -203,13 +223,38 @@ def g_call(rng, depth, bound):
     return ("call", "no_such_function", [g_term(rng, depth - 1, bound) for _ in range(rng.choice([0, 1]))])
 
 
+def g_deep(rng, depth, bound):
+    """a narrow, deep term: every level is a call / list / dict with one nested child (and sometimes a leaf beside it)"""
+    if depth <= 0:
+        return g_term(rng, 0, bound)
+    child = g_deep(rng, depth - 1, bound)
+    side = [g_term(rng, 0, bound)] if rng.random() < 0.4 else []
+    kids = side + [child] if rng.random() < 0.5 else [child] + side
+    r = rng.random()
+    if r < 0.35:
+        return ("call", "echo", kids)
+    if r < 0.65:
+        return ("list", kids)
+    ents, keys = [], []
+    for kid in kids:
+        _, q, s = g_str(rng)
+        if s in keys:
+            s = s + "k" + str(len(keys))
+        keys.append(s)
+        ents.append(((q, s), kid))
+    return ("dict", ents)
+
+
 def g_prog(rng):
-    n = rng.choice([1, 1, 2, 3, 4])
+    n = rng.choice([1, 1, 2, 3, 4, 4, 6, 8])
     bound = []
     prog = []
     for i in range(n):
-        name = "RETURN" if i == n - 1 else rng.choice(NAMES + ["RETURN"])
-        e = g_term(rng, rng.choice([1, 2, 3, 4, 5]), list(bound))
+        name = "RETURN" if i == n - 1 else (g_name(rng) if rng.random() < 0.9 else "RETURN")
+        if rng.random() < 0.12:
+            e = g_deep(rng, rng.choice([6, 8, 10, 12]), list(bound))
+        else:
+            e = g_term(rng, rng.choice([1, 2, 3, 4, 5]), list(bound))
         if bound and rng.random() < 0.2:
             e = ("var", rng.choice(bound))          # aliasing
         prog.append((name, e))
@@ -242,6 +287,99 @@ def corpus():
             yield [("RETURN", ("call", "echo", [("str", q, s), ("list", [("str", q, s)]), ("dict", [((q, s), ("str", q, s))])]))]
 
 
+def corpus_more():
+    """what Model/QueryRef.v's wf admits beyond the first corpus: the digit limit, odd names, dict in dict, deep chains"""
+    yield [("RETURN", ("int", "9" * 4300))]                       # sys.get_int_max_str_digits() digits exactly
+    yield [("RETURN", ("list", [("int", "0" * 4299 + "7"), ("int", "1" + "0" * 60)]))]
+    for n in ODD_NAMES:
+        yield [(n, ("list", [("int", "1"), ("str", "'", n)])), ("RETURN", ("call", "echo", [("var", n), ("var", n)]))]
+        yield [(n, ("int", "1")), (n, ("list", [("var", n), ("var", n)])), ("RETURN", ("dict", [(('"', n), ("var", n))]))]
+    d = ("int", "0")
+    for i in range(12):
+        d = ("dict", [(("'", "k%d" % i), d), (('"', "j"), ("list", [("int", str(i))]))])
+    yield [("RETURN", d)]
+    c = ("str", '"', "x")
+    for i in range(14):
+        c = [("call", "echo", [c]), ("list", [c]), ("dict", [(('"', "a,b:c"), c)])][i % 3]
+    yield [("RETURN", c)]
+    yield [("a", ("dict", [(('"', ""), ("dict", [(("'", ""), ("dict", []))]))])), ("b", ("var", "a")), ("a", ("int", "1")),
+           ("RETURN", ("list", [("var", "a"), ("var", "b")]))]
+    # rebinding chains: the value seen is always the latest one
+    yield [("x", ("int", "1")), ("y", ("var", "x")), ("x", ("list", [("var", "x"), ("var", "y")])), ("y", ("var", "x")),
+           ("x", ("dict", [(("'", "x"), ("var", "x")), (("'", "y"), ("var", "y"))])), ("RETURN", ("call", "echo", [("var", "x"), ("var", "y")]))]
+    yield [("RETURN", ("int", "1")), ("x", ("var", "RETURN")), ("RETURN", ("list", [("var", "x"), ("var", "RETURN")])),
+           ("RETURN", ("call", "echo", [("var", "RETURN"), ("var", "x")]))]
+
+
+LAYOUT_GRID_PROGS = [
+    [("x", ("list", [("int", "1"), ("str", '"', "a b")])), ("RETURN", ("call", "echo", [("var", "x"), ("dict", [(("'", "k"), ("call", "nop", [])), (('"', "l"), ("list", []))]), ("int", "3")]))],
+    [("RETURN", ("dict", [(('"', "a"), ("dict", [(("'", "b"), ("list", [("call", "echo", []), ("dict", [])]))])), (('"', "c"), ("var", "true"))]))],
+]
+SINGLE_BLANKS = [" ", "\t", "\n", "\x0b", "\x0c", "\r", "\x1c", "\x1d", "\x1e", "\x1f", "\r\n"]
+
+
+def depth_of(t):
+    k = t[0]
+    if k in ("int", "str", "var"):
+        return 0
+    kids = t[2] if k == "call" else (t[1] if k == "list" else [v for _, v in t[1]])
+    return 1 + max([depth_of(x) for x in kids], default=0)
+
+
+def features(prog):
+    """what of the grammar a program exercises (for the evidence's input distribution)"""
+    out = set()
+
+    def walk(t, inside_dict):
+        k = t[0]
+        if k == "int":
+            if len(t[1]) > 18:
+                out.add("int:more-than-18-digits")
+            if len(t[1]) > 1 and t[1][0] == "0":
+                out.add("int:leading-zero")
+        elif k == "str":
+            strf(t[1], t[2])
+        elif k == "var":
+            namef(t[1])
+        elif k == "call":
+            out.add("call:%d-args" % len(t[2]))
+            for a in t[2]:
+                walk(a, False)
+        elif k == "list":
+            for a in t[1]:
+                walk(a, False)
+        else:
+            if inside_dict:
+                out.add("dict:directly-inside-dict")
+            for (q, key), v in t[1]:
+                strf(q, key)
+                walk(v, True)
+
+    def strf(q, s):
+        other = "'" if q == '"' else '"'
+        if q in s:
+            out.add("str:own-quote-inside")
+        if other in s:
+            out.add("str:other-quote-inside")
+        if "\\" in s:
+            out.add("str:backslash-inside")
+        if any(c in s for c in "()[]{}"):
+            out.add("str:bracket-inside")
+        if any(c in s for c in ",:="):
+            out.add("str:separator-inside")
+
+    def namef(n):
+        if n in ODD_NAMES:
+            out.add("name:odd")
+        elif n not in NAMES and n not in PREDEF and n != "RETURN":
+            out.add("name:random")
+
+    for n, e in prog:
+        namef(n)
+        walk(e, False)
+    return out
+
+
 def main(argv=None):
     ck = Check("C11", argv)
     common.setup_impl_env()
@@ -250,30 +388,45 @@ def main(argv=None):
         if n not in impl.sigs:
             raise HarnessBroken(f"built-in {n} is not registered")
     ck.run_witnesses(["w13"])
-    ck.prove()
+    ck.prove(extra_targets=["Bridge/BridgeQuery.v"],
+             gen_kernels=["query_header", "QString.check", "QInteger.check", "QFunction.check", "QDict.check",
+                          "QList.check", "QVariable.check", "qtypes", "_parse_token", "parse_methods", "parse",
+                          "create_namespace", "get_return", "query_footer"])  # tie B: translate/k_query.py
     have_driver = ck.driver("ExC17")
 
     quick = ck.tier == "quick"
-    progs = [("corpus", p) for p in corpus()]
+    progs = [("corpus", p, None) for p in corpus()] + [("corpus", p, None) for p in corpus_more()]
+    for p in LAYOUT_GRID_PROGS:         # every white-space character alone at every slot
+        for b in SINGLE_BLANKS:
+            progs.append(("layout-grid", p, [lambda b=b: b]))
     for _ in range(2500 if quick else 150000):
-        progs.append(("random", g_prog(ck.rng)))
+        progs.append(("random", g_prog(ck.rng), None))
 
     compact = lambda: ""
     wire, expect = [], []
     seen = set()
-    for stream, prog in progs:
+    for stream, prog, fixed_layouts in progs:
         try:
             want = ("value", ref_run(prog))
         except RefError as e:
             want = ("error", e.cls)
         outs = []
-        layouts = [compact, lambda: ck.rng.choice(BLANKS)] if stream == "corpus" else \
+        layouts = fixed_layouts if fixed_layouts is not None else \
+                  [compact, lambda: ck.rng.choice(BLANKS)] if stream == "corpus" else \
                   [lambda: ck.rng.choice(BLANKS), lambda: ck.rng.choice(BLANKS)]
+        feats = features(prog)
+        depth = max(depth_of(e) for _, e in prog)
         for bl in layouts:
             text = p_prog(prog, bl)
             if text in seen:
                 continue
             seen.add(text)
+            ck.count("depth=%02d" % depth)
+            for f in feats:
+                ck.count(f)
+            for b in SINGLE_BLANKS[:-1]:
+                if b in text:
+                    ck.count("blank:%r" % b)
             r = impl.run(text)
             kind, payload = r["outcome"]
             got = ("value", payload) if kind == "value" else (kind, payload)
